@@ -56,10 +56,22 @@ type StateFile struct {
 
 // Dir is the content of one replication directory.
 type Dir struct {
-	Stream  string
-	States  map[uint64]StateFile // present state files by sequence number
-	Current uint64               // newest sequence number (served as state.txt / state.yaml)
-	Data    map[uint64][]byte    // sequence-numbered data files (already gzip'd)
+	Stream string
+	States map[uint64]StateFile // present state files by sequence number
+	// Lookup, when set, replaces States: large directories compute their state files from a
+	// function instead of storing them.
+	Lookup  func(n uint64) (StateFile, bool)
+	Current uint64            // newest sequence number (served as state.txt / state.yaml)
+	Data    map[uint64][]byte // sequence-numbered data files (already gzip'd)
+}
+
+// Get returns the state file of sequence n, if present.
+func (d *Dir) Get(n uint64) (StateFile, bool) {
+	if d.Lookup != nil {
+		return d.Lookup(n)
+	}
+	st, ok := d.States[n]
+	return st, ok
 }
 
 // Req is one logged request.
@@ -197,7 +209,7 @@ func (p *Planet) answer(r *http.Request, path string) (int, []byte) {
 		dataExt = ".osm.gz"
 	}
 	if rest == curName {
-		st, ok := d.States[d.Current]
+		st, ok := d.Get(d.Current)
 		if !ok {
 			return http.StatusNotFound, nil
 		}
@@ -210,7 +222,7 @@ func (p *Planet) answer(r *http.Request, path string) (int, []byte) {
 			return bad("unexpected path")
 		}
 		p.seqSeen[n]++
-		st, ok := d.States[n]
+		st, ok := d.Get(n)
 		if !ok {
 			return http.StatusNotFound, nil
 		}
